@@ -23,7 +23,7 @@ TITLE = "Union dispatch shortcuts equal try-each-alternative semantics"
 RULE = ("Hypothesis draws a program whose root is a Union / Optional of 2-4 alternatives biased to overlap (int/float/bool, "
         "str vs Literal vs str-Enum, List vs Tuple vs Set, two objects sharing field names, nested unions, Unsupported members), "
         "or (18%) a discriminated union: Annotated[Union[2-3 generated dataclasses with any field feature], discriminator(alias[, explicit "
-        "mapping])], options (incl. coerce, dynamic aliaser) and 6-12 data (valid data of each alternative, mutants, atoms).  Oracle (no model): the "
+        "mapping])] - the default mapping being the class names or, in 45% of those cases, a Literal field of each class aliased to the discriminator property, options (incl. coerce, dynamic aliaser) and 6-12 data (valid data of each alternative, mutants, atoms).  Oracle (no model): the "
         "union accepts iff some alternative alone accepts, with a canon-equal value to the first accepting alternative; "
         "discriminated: verdict and value equal deserialize(A_k, d without the tag) for the mapped k (when A_k has pattern / additional "
         "fields that can take the tag itself: only when A_k gives one verdict with and without it), rejected when the tag is "
@@ -63,7 +63,15 @@ def union_programs(draw, cfg):
         alts = [{"k": "cls", "i": i} for i in idxs]
         alias = pick(draw, ["kind", "type", "$t", "kind_of"])
         mapping = {f"k{j}": j for j in range(len(alts))} if chance(draw, 0.6) else None
-        g.prog["root"] = {"k": "union", "alts": alts, "disc": {"alias": alias, "mapping": mapping}}
+        disc = {"alias": alias, "mapping": mapping}
+        if mapping is None and chance(draw, 0.45):
+            # default mapping read from a Literal field of each alternative whose ALIAS is the discriminator property
+            # (its Python name differs)
+            for j, i in enumerate(idxs):
+                g.prog["classes"][i]["fields"].append({"n": f"tag_{j}", "t": {"k": "lit", "values": [f"k{j}"]}, "alias": alias, "no_override": True,
+                                                        "default": {"c": ["str", f"k{j}"]}})
+            disc["literal_field"] = True
+        g.prog["root"] = {"k": "union", "alts": alts, "disc": disc}
         return g.prog
     if mode < 35:
         fam = pick(draw, OVERLAP_FAMILIES)
@@ -116,6 +124,8 @@ def disc_keys(prog, t):
     disc = t["disc"]
     if disc.get("mapping"):
         return {key: i for key, i in disc["mapping"].items()}
+    if disc.get("literal_field"):
+        return {f"k{j}": j for j in range(len(t["alts"]))}
     return {prog["classes"][a["i"]]["name"]: j for j, a in enumerate(t["alts"])}
 
 
@@ -207,7 +217,7 @@ def _evaluate_disc(case, ctx, b, prog, opts):
     keys = disc_keys(prog, root)
     aliaser = build.ALIASERS[opts.get("aliaser", "id")]
     alias = aliaser(root["disc"]["alias"])
-    node = {"mapping": "explicit" if root["disc"].get("mapping") else "default", "coerce": bool(opts.get("coerce")), "aliaser": opts.get("aliaser", "id")}
+    node = {"mapping": "explicit" if root["disc"].get("mapping") else "literal_field" if root["disc"].get("literal_field") else "default", "coerce": bool(opts.get("coerce")), "aliaser": opts.get("aliaser", "id")}
     try:
         deserialization_method(tp, **kw)
     except Exception as e:
